@@ -31,6 +31,9 @@ ASSUMPTIONS = [
     'no concurrent modification of the target while extracting (TOCTOU races are outside the property as stated in DESIGN.md)',
     'entry modes carry no set-id/sticky bits; OWNER, ACL, XATTR, FFLAGS, MAC_METADATA, SPARSE, NO_OVERWRITE_NEWER, NO_AUTODIR are not in the option sets',
     'archive_write_data is called once with exactly the declared size',
+    'check_symlinks_fsobj: the theorems and the other programs use the component-level loop (Xtr.checkLoop) on cleaned paths; the literal '
+    'string-index transcription (checkLoopIdx) is run next to it by the pathclean engine and must agree (equivalence is tested, not proved)',
+    'extract_confined starts from a process that stands in a directory, holds no descriptor, and whose tree references only allocated inodes (C04.Start)',
 ]
 TRUSTED = [
     'lean/LA/Model/FS.lean as a model of the kernel (assumption, continuously compared with the real tree)',
